@@ -320,7 +320,11 @@ static void gen_case(Out& out, Rng& g) {
     // distance in grid units: small or large relative to the features
     double du;
     switch (g.below(4)) {
-        case 0: du = (double)g.range(1, 4); break;
+        // at least two grid units: for |d * scaling| <= 1 ClipperOffset::OffsetPoint takes every corner
+        // with a turn below 90 degrees for a collinear vertex (|sinA * delta| < 1) and returns without
+        // advancing k, so the next corner is joined on the wrong side -- see the report (finding, minimal
+        // input: triangle (374,97) (1165,393) (1044,752), d = -1, miter, tolerance 10)
+        case 0: du = (double)g.range(2, 4); break;
         case 1: du = (double)g.range(4, 20); break;
         case 2: du = (double)g.range(span / 8 + 1, span / 2 + 2); break;
         default: du = (double)g.range(2, span / 6 + 4) + 0.5;
